@@ -15,6 +15,7 @@ import (
 	"github.com/anishathalye/porcupine"
 
 	"github.com/Vedant9500/WTF/internal/cache"
+	"github.com/Vedant9500/WTF/internal/constants"
 	"github.com/Vedant9500/WTF/internal/database"
 	"github.com/Vedant9500/WTF/internal/metrics"
 	"github.com/Vedant9500/WTF/internal/recovery"
@@ -329,6 +330,41 @@ func c11Scenarios() []c11Scenario {
 				}
 				st := cdb.GetCacheStats()["search"]
 				return "", fmt.Sprintf("%s h=%d m=%d size=%d", strings.Join(res[:], "/"), st.Hits, st.Misses, st.Size)
+			}
+		}},
+		{"S11-cached-database-expiry", func(w *c11World) ([]func(), func() (string, string)) {
+			// entries age past the cache lifetime while searches, sweeps and statistics run
+			vtime.Enable()
+			cdb := database.NewCachedDatabase(w.db)
+			cdb.SearchWithOptionsAndCache("git files", optN) // cached at time 0
+			var res [3]string
+			var swept map[string]int
+			th := []func(){
+				func() {
+					res[0] = uDigest(uItems(w.db, cdb.SearchWithOptionsAndCache("git files", optN)))
+					res[1] = uDigest(uItems(w.db, cdb.SearchWithOptionsAndCache("git files", optN)))
+				},
+				func() {
+					vtime.Advance(constants.DefaultCacheTTL + time.Second)
+					swept = cdb.CleanupExpiredCache()
+				},
+				func() {
+					res[2] = uDigest(uItems(w.db, cdb.SearchWithOptionsAndCache("tar", opt0)))
+					cdb.GetCacheStats()
+					cdb.InvalidateCache()
+				},
+			}
+			return th, func() (string, string) {
+				defer vtime.Disable()
+				want := w.soloAnswer("git files", optN)
+				if res[0] != want || res[1] != want || res[2] != w.soloAnswer("tar", opt0) {
+					return "a cached search differs from its solo answer while entries expire", strings.Join(res[:], "/")
+				}
+				if swept["search"] < 0 || swept["search"] > 2 {
+					return fmt.Sprintf("sweep removed %d entries, at most 2 ever existed", swept["search"]), ""
+				}
+				st := cdb.GetCacheStats()["search"]
+				return "", fmt.Sprintf("%s swept=%d size=%d", strings.Join(res[:], "/"), swept["search"], st.Size)
 			}
 		}},
 		{"S4-monitored-database", func(w *c11World) ([]func(), func() (string, string)) {
@@ -681,7 +717,7 @@ func c11Run(c *lib.Ctx) {
 	}
 	// assign workers to scenarios: scenario = shard % len, r = shard / len
 	// worker -> scenario table: the monitored-database scenario has by far the largest schedule space
-	table := []int{0, 1, 2, 3, 4, 5, 6, 7, 8, 9, 4, 4, 4, 4, 4, 5}
+	table := []int{0, 1, 2, 3, 4, 5, 6, 7, 8, 9, 10, 5, 5, 5, 5, 5}
 	if c.NShards != len(table) {
 		table = nil
 		for i := 0; i < c.NShards; i++ {
@@ -803,9 +839,9 @@ func init() {
 	lib.Subs["c11race"] = c11RaceChild
 	lib.Register(&lib.Check{
 		ID: "C11", Level: "model_checking",
-		Rule:      "stateless schedule exploration (iterative context bounding): 10 closed scenarios of 3 threads x 1-3 operations on the real objects - S1 LRU capacity 2 (put/get/size/stats on colliding keys), S10 LRU with two writers of one key, S2 LRU with TTL (get / delete+put / clock advance+sweep+stats), S3 CachedDatabase (cached searches, InvalidateCache, CleanupExpiredCache, GetCacheStats), S4 MonitoredDatabase (monitored searches + report), S5 metrics collector (two threads creating the same new series + histogram + GetAllMetrics), S6 direct SearchUniversal, S7 first searches on the loader's built-in fallback database, S8 SearchCache Put/Get vs InvalidatePattern, S9 counter/gauge increments - every interleaving with <=3 (quick) / <=4 (thorough) preemptions at every Lock/RLock/atomic operation of the code under test; per execution: search answers equal solo answers, the recorded LRU call/return history is linearizable w.r.t. the LRU+TTL model (porcupine), totals equal the calls made, no deadlock / panic. states = executions (each a distinct schedule), transitions = scheduling points, traces validated = executions. Beside it, per scenario, a free-running -race pass (200 / 3000 repetitions) of the same bodies built without the scheduler shims: dynamic analysis, reported under race_pass_runs, not part of the exhaustive count. non-trivial = distinct observed outcomes",
+		Rule:      "stateless schedule exploration (iterative context bounding): 11 closed scenarios of 3 threads x 1-3 operations on the real objects - S1 LRU capacity 2 (put/get/size/stats on colliding keys), S10 LRU with two writers of one key, S2 LRU with TTL (get / delete+put / clock advance+sweep+stats), S3 CachedDatabase (cached searches, InvalidateCache, CleanupExpiredCache, GetCacheStats), S11 CachedDatabase with entries ageing past their lifetime (searches vs clock advance + sweep vs stats + invalidate), S4 MonitoredDatabase (monitored searches + report), S5 metrics collector (two threads creating the same new series + histogram + GetAllMetrics), S6 direct SearchUniversal, S7 first searches on the loader's built-in fallback database, S8 SearchCache Put/Get vs InvalidatePattern, S9 counter/gauge increments - every interleaving with <=3 (quick) / <=4 (thorough) preemptions at every Lock/RLock/atomic operation of the code under test; per execution: search answers equal solo answers, the recorded LRU call/return history is linearizable w.r.t. the LRU+TTL model (porcupine), totals equal the calls made, no deadlock / panic. states = executions (each a distinct schedule), transitions = scheduling points, traces validated = executions. Beside it, per scenario, a free-running -race pass (200 / 3000 repetitions) of the same bodies built without the scheduler shims: dynamic analysis, reported under race_pass_runs, not part of the exhaustive count. non-trivial = distinct observed outcomes",
 		Assume:    []string{"scheduling points are the sync and sync/atomic function-API operations of the repository packages (build overlay); plain memory accesses are covered only by the separate race pass", "the shim RWMutex lets new readers pass a waiting writer (superset of Go's behaviours)", "sequential consistency"},
-		QuickSecs: 200, ThorSecs: 1500, Graph: true,
+		QuickSecs: 360, ThorSecs: 1800, Graph: true,
 		Run: c11Run,
 		Replay: func(c *lib.Ctx, raw json.RawMessage) []lib.Violation {
 			vhost.Set("linux")
